@@ -343,6 +343,27 @@ theorem typed_total (s : State) (e : Expr) :
 
 example : tyC (.ite (.bin .ge (.var "a") (.int 0)) (.bin .eq (.fn1 .abs (.var "a")) (.var "a")) (.bool false)) = true := by decide
 
+/-- `imp.eval_Sem`: whenever the model of the function returns a derivation `d` and a final state `t`
+for (c, s), `d` is a well-formed derivation from the theorems `Sem_Skip`, `Sem_Assign`, `Sem_seq`, `Sem_if1`,
+`Sem_if2`, `Sem_while_skip`, `Sem_while_loop` of library/hoare.json, it proves `Sem c s t` in the inductive
+`Sem` the library defines, and `t` is the state the direct interpreter computes. So the theorem the real
+function returns (same statement and same rule sequence: compared per run) states a true fact. -/
+theorem eval_Sem_derives (n : Nat) (c : Com) (s t : State) (d : Deriv) (h : evalSem n c s = some (d, t)) :
+    DerivOK d (embed c) s t ∧ Gen.Sem (embed c) s t ∧ interp n c s = .ok t ∧ Exec c s t :=
+  have hs := evalSem_spec n c s d t h
+  ⟨hs.1, derivOK_sound hs.1, hs.2, interp_exec n c s t hs.2⟩
+
+/-- non-vacuity: the countdown loop from a = 1: the derivation is Sem_while_loop(Sem_Assign, Sem_while_skip). -/
+example : ∃ d t, evalSem 5 Ex.prog Ex.s1 = some (d, t) ∧ d.rules = ["Sem_while_loop", "Sem_Assign", "Sem_while_skip"] ∧ t "a" = 0 :=
+  ⟨_, _, rfl, by decide, by decide⟩
+
+/-- `eval_Sem` succeeds exactly when the interpreter does (same fuel), so on every terminating, non-stuck
+run the real function's result is covered by `eval_Sem_derives`. -/
+theorem eval_Sem_total (n : Nat) (c : Com) (s t : State) (h : interp n c s = .ok t) : ∃ d, evalSem n c s = some (d, t) :=
+  evalSem_of_interp n c s t h
+
+example : ∃ d, evalSem 3 (.seq .skip (.assign "x" (.int 2))) (fun _ => 0) = some (d, upd (fun _ => 0) "x" 2) := ⟨_, rfl⟩
+
 /-- the rule list translated is the one the proof above was written for -/
 theorem sem_rules_pinned : Gen.semRuleNames =
     ["Sem_basic", "Sem_seq", "Sem_if1", "Sem_if2", "Sem_while_skip", "Sem_while_loop"] := by decide
